@@ -833,6 +833,23 @@ class LoopMixin:
                 z3.Select(hasrow, kq) == z3.And(srchas, cond),
                 z3.Implies(z3.Select(hasrow, kq), z3.Select(valrow, kq) == val))))
             return TV("val", mk_ref(R), "dict")
+        if kind == "gen" and not g.ifs and it.k == "val" and self.is_listlike(it) and isinstance(g.target, ast.Name) \
+                and isinstance(n.elt, ast.Call) and isinstance(n.elt.func, ast.Name) and n.elt.func.id == "str" \
+                and len(n.elt.args) == 1 and isinstance(n.elt.args[0], ast.Name) and n.elt.args[0].id == g.target.id:
+            # (str(x) for x in L) == map(str, L)
+            from .symex import Builtin
+
+            return py(("map", py(Builtin("str"), "builtin"), it), "iter")
+        if kind == "list" and g.ifs and it.k == "val" and self.is_listlike(it) and isinstance(n.elt, ast.Name) \
+                and isinstance(g.target, ast.Name) and n.elt.id == g.target.id:
+            # [x for x in L if c(x)] == list(filter(lambda x: c(x), L))
+            test = g.ifs[0] if len(g.ifs) == 1 else ast.BoolOp(op=ast.And(), values=list(g.ifs))
+            lam = ast.Lambda(args=ast.arguments(posonlyargs=[], args=[ast.arg(arg=g.target.id)], kwonlyargs=[],
+                                                kw_defaults=[], defaults=[]), body=test)
+            ast.copy_location(lam, n)
+            ast.fix_missing_locations(lam)
+            fn = py(PyFunc(lam, frame, self.frame_mi(frame), "<comprehension filter>"), "func")
+            return self.filter_to_list(fn, it, n, frame)
         if kind == "gen" and g.ifs and it.k == "val" and self.is_listlike(it) and isinstance(n.elt, ast.Name) \
                 and isinstance(g.target, ast.Name) and n.elt.id == g.target.id:
             # (x for x in L if c(x)): kept lazy; next(...) takes the first element satisfying c
